@@ -207,6 +207,40 @@ func VerifC11Atomic(pair int) {
 			verifrt.Assert(count["b1"] == 1 && count["n"] <= 1 && len(listed) == 4+count["n"], "a listing taken during an add is the set before or after it")
 		}
 		return
+	case 6, 7: // a name registered twice (the admin API allows it): remove(name) is ONE step for a concurrent listing / request
+		for i := 0; i < 2; i++ {
+			d := verifBackend(2 + i)
+			d.Name = "dup"
+			lb.strategy.AddBackend(d)
+		}
+		var listed []BackendInfo
+		var served *Backend
+		if pair == 6 {
+			verifrt.Go(func() { listed = lb.ListBackends() })
+		} else {
+			verifrt.Go(func() {
+				lb.NextBackend(verifRequest("10.1.2.3:4711"))
+				served = lb.NextBackend(verifRequest("10.1.2.3:4711"))
+				listed = lb.ListBackends()
+			})
+		}
+		verifrt.Go(func() { lb.RemoveBackend("dup") })
+		verifrt.WaitAll()
+		dups := 0
+		for _, in := range listed {
+			if in.Name == "dup" {
+				dups++
+			}
+		}
+		verifrt.Assert(dups == 0 || dups == 2, "removing a name that is registered twice is one atomic step: a concurrent listing shows both entries or neither")
+		verifrt.Assert(len(listed) == 2+dups, "a listing taken during the remove shows every untouched backend exactly once")
+		if pair == 7 && dups == 0 {
+			// the listing came after the remove; so did nothing that the same goroutine did later - but `served` came before the listing:
+			// nothing to claim about it except that it is a backend that was configured at some point
+			verifrt.Assert(served != nil, "a configured healthy backend serves")
+		}
+		verifrt.Assert(!has("dup"), "a remove that returned is not listed")
+		return
 	case 3: // strategy switch || strategy switch
 		verifrt.Go(func() { lb.SetStrategy("ip_hash") })
 		verifrt.Go(func() { lb.SetStrategy("least_connections") })
